@@ -73,3 +73,103 @@ class RoundTrip:
 
     def ensures_returns_it_unchanged(signed, n_bits, n_frac, r, result):
         return result == r
+
+
+# ---- the deprecated word -> float converter (one scenario per word size) -------------------------------------------------------------
+from rig.type_casts import fix_to_float   # noqa: E402
+
+
+def fix8(signed, n_frac, word):
+    return fix_to_float(signed, 8, n_frac)(word)
+
+
+@contract("specs/c16_typecasts.py::fix8")
+class DeprecatedFixToFloat8:
+    """the deprecated word -> float converter, 8-bit formats: the word read as an unsigned / two's-complement number, scaled by
+    2**-n_frac - what fp_to_float gives for that number (over the reals: T9)"""
+    properties = ("C16",)
+    params = dict(signed=TBool(), n_frac=TInt(0, 8), word=TInt(0, 2 ** 8 - 1))
+
+    def native(signed, n_frac, word):
+        if 8 > 53:
+            raise __import__("pyvc.replay", fromlist=["OutsideHarness"]).OutsideHarness()      # (floats: not every word is representable)
+        return fix8(signed, n_frac, word)
+
+    def requires(signed, n_frac):
+        return n_frac + (1 if signed else 0) <= 8
+
+    def ensures_is_the_scaled_reading_of_the_word(signed, n_frac, word, result):
+        v = ite(signed and word >= 2 ** (8 - 1), word - 2 ** 8, word)
+        return result == real(v) * 2.0 ** (-n_frac)
+
+
+def fix16(signed, n_frac, word):
+    return fix_to_float(signed, 16, n_frac)(word)
+
+
+@contract("specs/c16_typecasts.py::fix16")
+class DeprecatedFixToFloat16:
+    """the deprecated word -> float converter, 16-bit formats: the word read as an unsigned / two's-complement number, scaled by
+    2**-n_frac - what fp_to_float gives for that number (over the reals: T9)"""
+    properties = ("C16",)
+    params = dict(signed=TBool(), n_frac=TInt(0, 16), word=TInt(0, 2 ** 16 - 1))
+
+    def native(signed, n_frac, word):
+        if 16 > 53:
+            raise __import__("pyvc.replay", fromlist=["OutsideHarness"]).OutsideHarness()      # (floats: not every word is representable)
+        return fix16(signed, n_frac, word)
+
+    def requires(signed, n_frac):
+        return n_frac + (1 if signed else 0) <= 16
+
+    def ensures_is_the_scaled_reading_of_the_word(signed, n_frac, word, result):
+        v = ite(signed and word >= 2 ** (16 - 1), word - 2 ** 16, word)
+        return result == real(v) * 2.0 ** (-n_frac)
+
+
+def fix32(signed, n_frac, word):
+    return fix_to_float(signed, 32, n_frac)(word)
+
+
+@contract("specs/c16_typecasts.py::fix32")
+class DeprecatedFixToFloat32:
+    """the deprecated word -> float converter, 32-bit formats: the word read as an unsigned / two's-complement number, scaled by
+    2**-n_frac - what fp_to_float gives for that number (over the reals: T9)"""
+    properties = ("C16",)
+    params = dict(signed=TBool(), n_frac=TInt(0, 32), word=TInt(0, 2 ** 32 - 1))
+
+    def native(signed, n_frac, word):
+        if 32 > 53:
+            raise __import__("pyvc.replay", fromlist=["OutsideHarness"]).OutsideHarness()      # (floats: not every word is representable)
+        return fix32(signed, n_frac, word)
+
+    def requires(signed, n_frac):
+        return n_frac + (1 if signed else 0) <= 32
+
+    def ensures_is_the_scaled_reading_of_the_word(signed, n_frac, word, result):
+        v = ite(signed and word >= 2 ** (32 - 1), word - 2 ** 32, word)
+        return result == real(v) * 2.0 ** (-n_frac)
+
+
+def fix64(signed, n_frac, word):
+    return fix_to_float(signed, 64, n_frac)(word)
+
+
+@contract("specs/c16_typecasts.py::fix64")
+class DeprecatedFixToFloat64:
+    """the deprecated word -> float converter, 64-bit formats: the word read as an unsigned / two's-complement number, scaled by
+    2**-n_frac - what fp_to_float gives for that number (over the reals: T9)"""
+    properties = ("C16",)
+    params = dict(signed=TBool(), n_frac=TInt(0, 64), word=TInt(0, 2 ** 64 - 1))
+
+    def native(signed, n_frac, word):
+        if 64 > 53:
+            raise __import__("pyvc.replay", fromlist=["OutsideHarness"]).OutsideHarness()      # (floats: not every word is representable)
+        return fix64(signed, n_frac, word)
+
+    def requires(signed, n_frac):
+        return n_frac + (1 if signed else 0) <= 64
+
+    def ensures_is_the_scaled_reading_of_the_word(signed, n_frac, word, result):
+        v = ite(signed and word >= 2 ** (64 - 1), word - 2 ** 64, word)
+        return result == real(v) * 2.0 ** (-n_frac)
